@@ -59,6 +59,7 @@ func init() {
 		if n := len(st); n > 0 {
 			v := st[n-1]
 			fr.i.pools[p] = st[:n-1]
+			fr.i.mon.ownObject(v)
 			return v
 		}
 		// field New is the last field of sync.Pool
